@@ -6,6 +6,7 @@ histories and `every_pill_cancelled_partial` for histories with at most one pill
 terminated by the restart budget first.
 -/
 import HW.Proofs.ProcReplay
+import HW.Model.Engine
 namespace HW.C07
 open HW.Proc
 
@@ -41,5 +42,20 @@ example :
     let r := runHistory 1 0 [.ok, .ok, .ok, .panic] b
     cancelsOf r.1.trace = [1] ∧ userRecvs r.1.trace = [(1, none), (2, none), (3, none)] ∧ cancelOK b r.1.trace = true := by
   decide +kernel
+
+/-- "… also for an unknown or already stopped PID": when no process is registered under the PID's id (never spawned,
+    already stopped and unregistered, or a nil PID), Stop / Poison publish exactly one DeadLetterEvent carrying that
+    target and return a context that is done at once — for every engine state and every PID. -/
+theorem unknown_pid_done_at_once (e : Engine.Eng) (t : Option Engine.Key)
+    (h : ∀ k, t = some k → e.registered k.id = false) :
+    Engine.poison e t = .deadLetterDone t := by
+  cases t with
+  | none => rfl
+  | some k => simp [Engine.poison, h k rfl]
+
+/-- and only then: a pill for a registered id is handed to that process (whose context is governed by `cancel_last`). -/
+theorem known_pid_queued (e : Engine.Eng) (k : Engine.Key) (h : e.registered k.id = true) :
+    Engine.poison e (some k) = .queued k.id := by
+  simp [Engine.poison, h]
 
 end HW.C07
